@@ -20,6 +20,7 @@ import (
 	"sort"
 	"strconv"
 	"strings"
+	"sync"
 )
 
 type trSpec struct {
@@ -38,11 +39,15 @@ type trSpec struct {
 	onlyTypes  map[string]bool      // if non-nil, only these struct types are emitted
 	externCall map[string]externCallSpec // "<pkg path>.<Type>.<Method>" / "<pkg path>.<Func>" of ANOTHER translated package -> its Lean function
 	nonNilWhenTrue map[string][]string  // function (of another package) whose result `true` implies that these fields of its argument are non-nil (proved in Lean)
+	identity   map[string]bool   // struct types handled through pointers that are compared / used as map keys: get an `addr__` field and DecidableEq
+	skipFields map[string]string // "<struct>.<field>" -> reason: left out of the emitted struct
+	eventLoops map[string]bool   // methods of the form `for { select { case x := <-recv.ch: … } }`: one Lean function per case
 }
 
 type externCallSpec struct {
 	lean    string
 	mutates bool // returns the updated receiver (as its only / last component)
+	effects bool // … followed by the list of channels it closed
 }
 
 var trSpecs = []trSpec{
@@ -64,16 +69,16 @@ var trSpecs = []trSpec{
 			"listDeniedHandler": true, "listAllowedHandler": true, "sessionHandler": true},
 		onlyTypes: map[string]bool{"Config": true},
 		externCall: map[string]externCallSpec{
-			"github.com/practable/relay/internal/deny.Store.Deny":                 {"Gen.deny.Store.Deny", true},
-			"github.com/practable/relay/internal/deny.Store.Allow":                {"Gen.deny.Store.Allow", true},
-			"github.com/practable/relay/internal/deny.Store.GetDenyList":          {"Gen.deny.Store.GetDenyList", false},
-			"github.com/practable/relay/internal/deny.Store.GetAllowList":         {"Gen.deny.Store.GetAllowList", false},
-			"github.com/practable/relay/internal/deny.Store.IsDenied":             {"Gen.deny.Store.IsDenied", false},
-			"github.com/practable/relay/internal/ttlcode.CodeStore.DeleteByBookingID": {"Gen.ttlcode.CodeStore.DeleteByBookingID", true},
-			"github.com/practable/relay/internal/ttlcode.CodeStore.SubmitToken":       {"Go.submitToken", true},
-			"github.com/practable/relay/internal/permission.Token.SetBookingID":      {"Gen.permission.Token.SetBookingID", true},
-			"github.com/practable/relay/internal/permission.HasRequiredClaims":       {"Gen.permission.HasRequiredClaims", false},
-			"github.com/practable/relay/internal/permission.NewToken":                {"Gen.permission.NewToken", false},
+			"github.com/practable/relay/internal/deny.Store.Deny":                 {"Gen.deny.Store.Deny", true, false},
+			"github.com/practable/relay/internal/deny.Store.Allow":                {"Gen.deny.Store.Allow", true, false},
+			"github.com/practable/relay/internal/deny.Store.GetDenyList":          {"Gen.deny.Store.GetDenyList", false, false},
+			"github.com/practable/relay/internal/deny.Store.GetAllowList":         {"Gen.deny.Store.GetAllowList", false, false},
+			"github.com/practable/relay/internal/deny.Store.IsDenied":             {"Gen.deny.Store.IsDenied", false, false},
+			"github.com/practable/relay/internal/ttlcode.CodeStore.DeleteByBookingID": {"Gen.ttlcode.CodeStore.DeleteByBookingID", true, false},
+			"github.com/practable/relay/internal/ttlcode.CodeStore.SubmitToken":       {"Go.submitToken", true, false},
+			"github.com/practable/relay/internal/permission.Token.SetBookingID":      {"Gen.permission.Token.SetBookingID", true, false},
+			"github.com/practable/relay/internal/permission.HasRequiredClaims":       {"Gen.permission.HasRequiredClaims", false, false},
+			"github.com/practable/relay/internal/permission.NewToken":                {"Gen.permission.NewToken", false, false},
 		},
 		nonNilWhenTrue: map[string][]string{"github.com/practable/relay/internal/permission.HasRequiredClaims": {"ExpiresAt", "RegisteredClaims.ExpiresAt"}},
 		emptyIface: "Go.Principal",
@@ -90,6 +95,17 @@ var trSpecs = []trSpec{
 		optionPtr:  map[string]string{"github.com/golang-jwt/jwt/v4.NumericDate": "Go.NumericDate"},
 		externMeth: map[string]string{"github.com/golang-jwt/jwt/v4.NumericDate.IsZero": "Go.NumericDate.IsZero", "github.com/golang-jwt/jwt/v4.NumericDate.Unix": "Go.NumericDate.unix"},
 		assertions: map[string][2]string{"*jwt.Token": {"%s.token", "%s.isJwt"}, "*permission.Token": {"%s.asToken", "%s.isToken"}}},
+	{dir: "internal/crossbar", module: "GenCrossbar", ns: "Gen.crossbar", extraImps: []string{"Relay.Extracted.GenChanmap"},
+		wantedOnly: map[string]bool{"run": true, "remove": true},
+		eventLoops: map[string]bool{"run": true},
+		onlyTypes:  map[string]bool{"Client": true, "message": true, "Hub": true},
+		identity:   map[string]bool{"Client": true},
+		skipFields: map[string]string{"Client.hub": "back pointer to the hub (not data of the client)", "Client.stats": "traffic counters (pkg/status side)"},
+		externTys:  map[string]string{"github.com/practable/relay/internal/chanmap.Store": "Gen.chanmap.Store"},
+		externCall: map[string]externCallSpec{
+			"github.com/practable/relay/internal/chanmap.Store.Add":         {"Gen.chanmap.Store.Add", true, false},
+			"github.com/practable/relay/internal/chanmap.Store.DeleteChild": {"Gen.chanmap.Store.DeleteChild", true, true},
+		}},
 }
 
 type unsupported struct{ msg string }
@@ -120,6 +136,35 @@ type tr struct {
 	recvObj types.Object
 	curFn   string
 	hasFx   bool
+	outs      map[string]types.Type           // function -> Lean type of the values it sends with `select { case ch <- v: default: }` (log `out__`)
+	evClauses map[string]*ast.CommClause  // pseudo-function "<T>.<loop>.<channel field>" -> its select clause
+	present   map[string]int              // per function: inner maps known to exist (source text of `m[k]`)
+}
+
+// outSentinel stands for the send log `out__` among loop-carried variables (nil stands for the effect log)
+var outSentinel = types.NewVar(token.NoPos, nil, "out__", types.Typ[types.Bool])
+
+// mapNS: the Lean namespace of the map operations for this Go map type (string keys / pointer keys)
+func (t *tr) mapNS(ty types.Type) string {
+	if m, ok := ty.Underlying().(*types.Map); ok {
+		if b, ok := m.Key().Underlying().(*types.Basic); ok && b.Info()&types.IsString != 0 {
+			return "Go.Map"
+		}
+		return "Go.PMap"
+	}
+	return "Go.Map"
+}
+
+func (t *tr) identityPtr(ty types.Type) (string, bool) {
+	p, ok := ty.(*types.Pointer)
+	if !ok {
+		return "", false
+	}
+	n, ok := p.Elem().(*types.Named)
+	if !ok || n.Obj().Pkg() != t.pkg || !t.spec.identity[n.Obj().Name()] {
+		return "", false
+	}
+	return n.Obj().Name(), true
 }
 
 var leanKeywords = map[string]bool{"end": true, "at": true, "from": true, "fun": true, "then": true, "else": true, "open": true, "in": true, "do": true,
@@ -133,6 +178,12 @@ func (t *tr) fresh(base string) string {
 	}
 	if leanKeywords[base] {
 		base = base + "_"
+	}
+	for _, sn := range t.structs {
+		if sn == base { // a variable named like an emitted structure would shadow the type
+			base = base + "_"
+			break
+		}
 	}
 	n := t.used[base]
 	t.used[base] = n + 1
@@ -180,6 +231,9 @@ func (t *tr) leanType(ty types.Type) string {
 		return "(List " + t.leanType(u.Elem()) + ")"
 	case *types.Map:
 		if b, ok := u.Key().Underlying().(*types.Basic); !ok || b.Info()&types.IsString == 0 {
+			if k, ok := t.identityPtr(u.Key()); ok {
+				return "(Go.PMap " + k + " " + t.leanType(u.Elem()) + ")"
+			}
 			unsup("map with non-string key %s", u.String())
 		}
 		return "(Go.Map " + t.leanType(u.Elem()) + ")"
@@ -534,7 +588,7 @@ func (t *tr) expr(e ast.Expr) string {
 		unsup("qualified identifier %s", x.Sel.Name)
 	case *ast.IndexExpr:
 		if _, ok := t.typeOf(x.X).Underlying().(*types.Map); ok {
-			return "(Go.Map.get " + t.expr(x.X) + " " + t.expr(x.Index) + ")"
+			return "(" + t.mapNS(t.typeOf(x.X)) + ".get " + t.expr(x.X) + " " + t.expr(x.Index) + ")"
 		}
 		unsup("index on %s", t.typeOf(x.X).String())
 	case *ast.CompositeLit:
@@ -562,7 +616,7 @@ func (t *tr) expr(e ast.Expr) string {
 			return "([" + strings.Join(parts, ", ") + "] : " + t.leanType(ty) + ")"
 		case *types.Map:
 			if len(x.Elts) == 0 {
-				return "(Go.Map.empty : " + t.leanType(ty) + ")"
+				return "(" + t.mapNS(ty) + ".empty : " + t.leanType(ty) + ")"
 			}
 			_ = u
 			unsup("non-empty map literal")
@@ -611,7 +665,7 @@ func (t *tr) call(x *ast.CallExpr, want int) (string, bool) {
 			case "len":
 				switch t.typeOf(x.Args[0]).Underlying().(type) {
 				case *types.Map:
-					return "(Go.Map.len " + t.expr(x.Args[0]) + ")", false
+					return "(" + t.mapNS(t.typeOf(x.Args[0])) + ".len " + t.expr(x.Args[0]) + ")", false
 				case *types.Slice:
 					return "(Go.sliceLen " + t.expr(x.Args[0]) + ")", false
 				}
@@ -623,7 +677,7 @@ func (t *tr) call(x *ast.CallExpr, want int) (string, bool) {
 				unsup("append with %d arguments", len(x.Args))
 			case "make":
 				if _, ok := t.typeOf(x).Underlying().(*types.Map); ok {
-					return "(Go.Map.empty : " + t.leanType(t.typeOf(x)) + ")", false
+					return "(" + t.mapNS(t.typeOf(x)) + ".empty : " + t.leanType(t.typeOf(x)) + ")", false
 				}
 				unsup("make of %s", t.typeOf(x).String())
 			}
@@ -778,7 +832,13 @@ func (t *tr) assignTo(lhs ast.Expr, rhs string, ind string) string {
 				// fine: value semantics are only unsound when an inner map is aliased AND mutated through the alias;
 				// aliasing of map-typed locals is rejected in `checkNoMapAlias`
 			}
-			return t.assignTo(x.X, "Go.Map.set "+t.expr(x.X)+" "+t.expr(x.Index)+" ("+rhs+")", ind)
+			if inner, nested := x.X.(*ast.IndexExpr); nested {
+				// `m[a][b] = v` panics in Go when `m[a]` is the nil map: the inner map must be known to exist here
+				if t.present[srcString(inner)] == 0 {
+					unsup("assignment into %s, which may be a nil map (no dominating `if _, ok := %s; !ok { %s = make(…) }`)", srcString(inner), srcString(inner), srcString(inner))
+				}
+			}
+			return t.assignTo(x.X, t.mapNS(t.typeOf(x.X))+".set "+t.expr(x.X)+" "+t.expr(x.Index)+" ("+rhs+")", ind)
 		}
 		unsup("assignment to index of %s", t.typeOf(x.X).String())
 	}
@@ -865,6 +925,7 @@ func (t *tr) assigned(body *ast.BlockStmt) []types.Object {
 	set := map[types.Object]bool{}
 	inside := map[types.Object]bool{}
 	fx := false
+	out := false
 	ast.Inspect(body, func(n ast.Node) bool {
 		switch x := n.(type) {
 		case *ast.AssignStmt:
@@ -903,6 +964,10 @@ func (t *tr) assigned(body *ast.BlockStmt) []types.Object {
 			if o := t.rootObj(x.X); o != nil {
 				set[o] = true
 			}
+		case *ast.CommClause:
+			if _, ok := x.Comm.(*ast.SendStmt); ok {
+				out = true
+			}
 		case *ast.CallExpr:
 			if id, ok := x.Fun.(*ast.Ident); ok {
 				if b, ok := t.info.ObjectOf(id).(*types.Builtin); ok {
@@ -933,19 +998,22 @@ func (t *tr) assigned(body *ast.BlockStmt) []types.Object {
 		}
 		return true
 	})
-	out := []types.Object{}
+	res := []types.Object{}
 	for o := range set {
 		if !inside[o] && o != nil {
 			if _, ok := o.(*types.Var); ok {
-				out = append(out, o)
+				res = append(res, o)
 			}
 		}
 	}
-	sort.Slice(out, func(i, j int) bool { return out[i].Pos() < out[j].Pos() })
+	sort.Slice(res, func(i, j int) bool { return res[i].Pos() < res[j].Pos() })
 	if fx {
-		out = append(out, nil) // nil stands for the effect log
+		res = append(res, nil) // nil stands for the effect log
 	}
-	return out
+	if out {
+		res = append(res, outSentinel)
+	}
+	return res
 }
 
 func (t *tr) tuple(objs []types.Object) string {
@@ -953,6 +1021,8 @@ func (t *tr) tuple(objs []types.Object) string {
 	for _, o := range objs {
 		if o == nil {
 			parts = append(parts, "fx__")
+		} else if o == types.Object(outSentinel) {
+			parts = append(parts, "out__")
 		} else {
 			parts = append(parts, t.nameOf(o))
 		}
@@ -1003,7 +1073,15 @@ func (t *tr) stmts(list []ast.Stmt, k cont, ind string, inLoop bool) string {
 			if b, ok := t.info.ObjectOf(id).(*types.Builtin); ok {
 				switch b.Name() {
 				case "delete":
-					return t.assignTo(c.Args[0], "Go.Map.delete "+t.expr(c.Args[0])+" "+t.expr(c.Args[1]), ind) + rest()
+					del := t.mapNS(t.typeOf(c.Args[0])) + ".delete " + t.expr(c.Args[0]) + " " + t.expr(c.Args[1])
+					if inner, nested := c.Args[0].(*ast.IndexExpr); nested {
+						if _, isMap := t.typeOf(inner.X).Underlying().(*types.Map); isMap && t.mapNS(t.typeOf(inner.X)) == "Go.Map" {
+							// `delete(m[a], b)`: no-op on the nil map of an absent `a` (and no entry for `a` appears)
+							return t.assignTo(inner.X, "Go.Map.setIfPresent "+t.expr(inner.X)+" "+t.expr(inner.Index)+" ("+del+")", ind) + rest()
+						}
+						unsup("delete from a doubly nested map")
+					}
+					return t.assignTo(c.Args[0], del, ind) + rest()
 				case "close":
 					t.hasFx = true
 					return ind + "let fx__ := fx__ ++ [" + t.expr(c.Args[0]) + "]\n" + rest()
@@ -1043,8 +1121,9 @@ func (t *tr) stmts(list []ast.Stmt, k cont, ind string, inLoop bool) string {
 			if ie, ok := x.Rhs[0].(*ast.IndexExpr); ok {
 				if _, ok := t.typeOf(ie.X).Underlying().(*types.Map); ok {
 					m, key := t.expr(ie.X), t.expr(ie.Index)
-					out := t.assignTo(x.Lhs[0], "Go.Map.get "+m+" "+key, ind)
-					out += t.assignTo(x.Lhs[1], "Go.Map.has "+m+" "+key, ind)
+					ns := t.mapNS(t.typeOf(ie.X))
+					out := t.assignTo(x.Lhs[0], ns+".get "+m+" "+key, ind)
+					out += t.assignTo(x.Lhs[1], ns+".has "+m+" "+key, ind)
 					return out + rest()
 				}
 			}
@@ -1133,6 +1212,11 @@ func (t *tr) stmts(list []ast.Stmt, k cont, ind string, inLoop bool) string {
 			pre = t.stmts([]ast.Stmt{x.Init}, func(string) string { return "" }, ind, inLoop)
 		}
 		cond := t.expr(x.Cond)
+		if inner, ok := t.ensuresInner(x); ok {
+			// after `if _, ok := m[k]; !ok { m[k] = make(…) }` the inner map `m[k]` exists on every path
+			t.present[inner]++
+			defer func() { t.present[inner]-- }()
+		}
 		tf, ff := t.factsWhen(x.Cond, true), t.factsWhen(x.Cond, false)
 		for _, f := range tf {
 			t.nonNil[f]++
@@ -1186,7 +1270,11 @@ func (t *tr) stmts(list []ast.Stmt, k cont, ind string, inLoop bool) string {
 		var head string
 		switch t.typeOf(x.X).Underlying().(type) {
 		case *types.Map:
-			head = "Go.forRange (w.ord " + t.expr(x.X) + ") "
+			if t.mapNS(t.typeOf(x.X)) == "Go.PMap" {
+				head = "Go.forRangeP (w.ordP " + t.expr(x.X) + ") "
+			} else {
+				head = "Go.forRange (w.ord " + t.expr(x.X) + ") "
+			}
 		case *types.Slice:
 			head = "Go.forSlice " + t.expr(x.X) + " "
 		default:
@@ -1265,6 +1353,34 @@ func (t *tr) stmts(list []ast.Stmt, k cont, ind string, inLoop bool) string {
 			return ind2 + "if " + clauses[i].cond + " then\n" + thenS + ind2 + "else\n" + chain(i+1, ind2+"  ")
 		}
 		return pre + chain(0, ind)
+	case *ast.SelectStmt:
+		// `select { case ch <- v: A; default: B }`: a send that never blocks; whether it goes through is the environment's choice (`w.ready ch`)
+		var send, deflt *ast.CommClause
+		for _, cs := range x.Body.List {
+			cc := cs.(*ast.CommClause)
+			switch cc.Comm.(type) {
+			case nil:
+				deflt = cc
+			case *ast.SendStmt:
+				if send != nil {
+					unsup("select with several send clauses")
+				}
+				send = cc
+			default:
+				unsup("select with a receive clause outside an event loop")
+			}
+		}
+		if send == nil || deflt == nil || len(x.Body.List) != 2 {
+			unsup("select form (only `case ch <- v:` + `default:` is translated)")
+		}
+		if t.outs[t.curFn] == nil {
+			unsup("select send in a function not analysed as sending")
+		}
+		ss := send.Comm.(*ast.SendStmt)
+		ch, v := t.expr(ss.Chan), t.expr(ss.Value)
+		thenS := ind + "  let out__ := out__ ++ [(" + ch + ", " + v + ")]\n" + t.stmts(send.Body, restAt, ind+"  ", inLoop)
+		elseS := t.stmts(deflt.Body, restAt, ind+"  ", inLoop)
+		return ind + "if (w.ready " + ch + ") then\n" + thenS + ind + "else\n" + elseS
 	case *ast.SendStmt:
 		if b, ok := t.typeOf(x.Value).Underlying().(*types.Basic); !ok || b.Info()&types.IsString == 0 {
 			unsup("send of a non-string value")
@@ -1278,6 +1394,50 @@ func (t *tr) stmts(list []ast.Stmt, k cont, ind string, inLoop bool) string {
 	}
 	unsup("statement %T", s)
 	return ""
+}
+
+// ensuresInner recognises `if _, ok := m[k]; !ok { m[k] = make(map…) }` (no else) and returns the text of `m[k]`
+func (t *tr) ensuresInner(x *ast.IfStmt) (string, bool) {
+	as, ok := x.Init.(*ast.AssignStmt)
+	if !ok || len(as.Lhs) != 2 || len(as.Rhs) != 1 || x.Else != nil || len(x.Body.List) != 1 {
+		return "", false
+	}
+	ie, ok := as.Rhs[0].(*ast.IndexExpr)
+	if !ok {
+		return "", false
+	}
+	if _, isMap := t.typeOf(ie.X).Underlying().(*types.Map); !isMap {
+		return "", false
+	}
+	okId, ok := as.Lhs[1].(*ast.Ident)
+	if !ok {
+		return "", false
+	}
+	not, ok := x.Cond.(*ast.UnaryExpr)
+	if !ok || not.Op != token.NOT {
+		return "", false
+	}
+	cid, ok := not.X.(*ast.Ident)
+	if !ok || t.info.ObjectOf(cid) != t.info.ObjectOf(okId) {
+		return "", false
+	}
+	set, ok := x.Body.List[0].(*ast.AssignStmt)
+	if !ok || set.Tok != token.ASSIGN || len(set.Lhs) != 1 || len(set.Rhs) != 1 || srcString(set.Lhs[0]) != srcString(ie) {
+		return "", false
+	}
+	if _, isMap := t.typeOf(set.Rhs[0]).Underlying().(*types.Map); !isMap {
+		return "", false
+	}
+	switch r := set.Rhs[0].(type) {
+	case *ast.CallExpr:
+		if id, ok := r.Fun.(*ast.Ident); !ok || id.Name != "make" {
+			return "", false
+		}
+	case *ast.CompositeLit:
+	default:
+		return "", false
+	}
+	return srcString(ie), true
 }
 
 // reindent is the identity: nested statements are generated with their own indentation already
@@ -1297,6 +1457,9 @@ func (t *tr) retTuple(vals []string) string {
 	}
 	if t.sends[t.curFn] {
 		vals = append(vals, "snd__")
+	}
+	if t.outs[t.curFn] != nil {
+		vals = append(vals, "out__")
 	}
 	switch len(vals) {
 	case 0:
@@ -1459,20 +1622,28 @@ func (t *tr) callStmt(lhs []ast.Expr, c *ast.CallExpr, ind string) string {
 			term, _ := t.call(c, len(lhs))
 			if ec.mutates {
 				tmp := t.fresh("recv__")
+				tail := []string{tmp}
+				postFx := ""
+				if ec.effects {
+					t.hasFx = true
+					fxv := t.fresh("fxc__")
+					tail = append(tail, fxv)
+					postFx = ind + "let fx__ := fx__ ++ " + fxv + "\n"
+				}
 				if len(lhs) == 0 {
 					// the callee may also return Go results we discard: it returns either the receiver alone or (results…, receiver)
 					nres := 0
 					if sel, ok := t.info.Selections[se]; ok {
 						nres = sel.Obj().Type().(*types.Signature).Results().Len()
 					}
-					if nres == 0 {
+					if nres == 0 && !ec.effects {
 						return ind + "let " + tmp + " := " + term + "\n" + t.assignTo(se.X, tmp, ind)
 					}
 					pats := []string{}
 					for i := 0; i < nres; i++ {
 						pats = append(pats, "_")
 					}
-					return ind + "let (" + strings.Join(append(pats, tmp), ", ") + ") := " + term + "\n" + t.assignTo(se.X, tmp, ind)
+					return ind + "let (" + strings.Join(append(pats, tail...), ", ") + ") := " + term + "\n" + t.assignTo(se.X, tmp, ind) + postFx
 				}
 				pats, post := []string{}, ""
 				for _, l := range lhs {
@@ -1488,7 +1659,7 @@ func (t *tr) callStmt(lhs []ast.Expr, c *ast.CallExpr, ind string) string {
 					pats = append(pats, r)
 					post += t.assignTo(l, r, ind)
 				}
-				return ind + "let (" + strings.Join(append(pats, tmp), ", ") + ") := " + term + "\n" + post + t.assignTo(se.X, tmp, ind)
+				return ind + "let (" + strings.Join(append(pats, tail...), ", ") + ") := " + term + "\n" + post + t.assignTo(se.X, tmp, ind) + postFx
 			}
 			if len(lhs) == 1 {
 				return t.assignTo(lhs[0], term, ind)
@@ -1507,6 +1678,9 @@ func (t *tr) callStmt(lhs []ast.Expr, c *ast.CallExpr, ind string) string {
 			return ind + "let _ := " + term + "\n"
 		}
 		unsup("multi-value call of an untranslated function")
+	}
+	if t.outs[q] != nil {
+		unsup("call of %s, which sends on channels (its send log is not threaded through calls)", q)
 	}
 	term, _ := t.call(c, len(lhs))
 	fd := t.funcs[q]
@@ -1613,7 +1787,7 @@ func translatePackage(repo string, sp trSpec, outDir string) (nfn int, notes []s
 		notes = append(notes, "type check: "+err.Error())
 	}
 	t := &tr{spec: sp, fset: fset, info: info, pkg: pkg, funcs: map[string]*ast.FuncDecl{}, mutates: map[string]bool{}, effects: map[string]bool{}, locks: map[string]bool{}, objFn: map[types.Object]string{},
-		closures: map[string]*ast.FuncLit{}, sends: map[string]bool{}, skipped: map[string]bool{}}
+		closures: map[string]*ast.FuncLit{}, sends: map[string]bool{}, skipped: map[string]bool{}, outs: map[string]types.Type{}, evClauses: map[string]*ast.CommClause{}}
 	var b strings.Builder
 	b.WriteString("import Relay.Base.GoLite\n")
 	for _, im := range sp.extraImps {
@@ -1670,6 +1844,11 @@ func translatePackage(repo string, sp trSpec, outDir string) (nfn int, notes []s
 					sb.WriteString("  -- " + f.Name() + " : sync.Mutex (not data)\n")
 					continue
 				}
+				if why, sk := sp.skipFields[sd.name+"."+f.Name()]; sk {
+					sb.WriteString("  -- " + f.Name() + " : " + f.Type().String() + " (" + why + ")\n")
+					t.skipped[sd.name+"."+f.Name()] = true
+					continue
+				}
 				if _, ok := f.Type().Underlying().(*types.Chan); ok && f.Name() == "closed" {
 					sb.WriteString("  -- " + f.Name() + " : shutdown channel of the sweeper goroutine (not data)\n")
 					continue
@@ -1694,10 +1873,18 @@ func translatePackage(repo string, sp trSpec, outDir string) (nfn int, notes []s
 				sb.WriteString("  " + fieldName(f.Name()) + " : " + ft + "\n")
 				nf++
 			}
+			if sp.identity[sd.name] {
+				sb.WriteString("  addr__ : Nat      -- the identity of the Go object (pointers to it are compared and used as map keys)\n")
+				nf++
+			}
 			if nf == 0 {
 				sb.WriteString("  mk ::\n")
 			}
-			sb.WriteString("deriving Inhabited\n\n")
+			if sp.identity[sd.name] {
+				sb.WriteString("deriving Inhabited, DecidableEq\n\n")
+			} else {
+				sb.WriteString("deriving Inhabited\n\n")
+			}
 			b.WriteString(sb.String())
 			t.structs = append(t.structs, sd.name)
 		}()
@@ -1726,6 +1913,20 @@ func translatePackage(repo string, sp trSpec, outDir string) (nfn int, notes []s
 			if sp.wantedOnly != nil && !sp.wantedOnly[fd.Name.Name] {
 				continue
 			}
+			if sp.eventLoops[fd.Name.Name] {
+				cls, why := eventClauses(fd)
+				if why != "" {
+					untranslated = append(untranslated, [2]string{q, why})
+					continue
+				}
+				for _, ec := range cls {
+					q2 := q + "_" + ec.name
+					t.funcs[q2] = fd
+					t.evClauses[q2] = ec.clause
+					order = append(order, q2)
+				}
+				continue
+			}
 			t.funcs[q] = fd
 			t.objFn[info.Defs[fd.Name]] = q
 			order = append(order, q)
@@ -1752,8 +1953,20 @@ func translatePackage(repo string, sp trSpec, outDir string) (nfn int, notes []s
 			recvObj = info.Defs[fd.Type.Params.List[0].Names[0]]
 			ptr = true
 		}
-		ast.Inspect(fd.Body, func(n ast.Node) bool {
-			if _, ok := n.(*ast.SendStmt); ok {
+		commSends := map[*ast.SendStmt]bool{}
+		ast.Inspect(t.bodyNode(q), func(n ast.Node) bool {
+			if cc, ok := n.(*ast.CommClause); ok {
+				if ss, ok := cc.Comm.(*ast.SendStmt); ok {
+					commSends[ss] = true
+					if tv, ok := info.Types[ss.Value]; ok {
+						t.outs[q] = tv.Type
+					}
+				}
+			}
+			return true
+		})
+		ast.Inspect(t.bodyNode(q), func(n ast.Node) bool {
+			if ss, ok := n.(*ast.SendStmt); ok && !commSends[ss] {
 				t.sends[q] = true
 			}
 			if c, ok := n.(*ast.CallExpr); ok {
@@ -1761,11 +1974,14 @@ func translatePackage(repo string, sp trSpec, outDir string) (nfn int, notes []s
 					if ec, ok := t.externCallOf(se); ok && ec.mutates && ptr && recvObj != nil && t.rootObj(se.X) == recvObj {
 						t.mutates[q] = true
 					}
+					if ec, ok := t.externCallOf(se); ok && ec.effects {
+						t.effects[q] = true
+					}
 				}
 			}
 			return true
 		})
-		ast.Inspect(fd.Body, func(n ast.Node) bool {
+		ast.Inspect(t.bodyNode(q), func(n ast.Node) bool {
 			switch x := n.(type) {
 			case *ast.AssignStmt:
 				for _, l := range x.Lhs {
@@ -1888,6 +2104,56 @@ func translatePackage(repo string, sp trSpec, outDir string) (nfn int, notes []s
 	return nfn, notes
 }
 
+type evClause struct {
+	name   string
+	clause *ast.CommClause
+}
+
+// eventClauses: the cases of `for { select { case x := <-recv.ch: … } }` (the whole body of fd), named by their channel field
+func eventClauses(fd *ast.FuncDecl) ([]evClause, string) {
+	if len(fd.Body.List) != 1 {
+		return nil, "event loop: the body is not a single for statement"
+	}
+	fs, ok := fd.Body.List[0].(*ast.ForStmt)
+	if !ok || fs.Init != nil || fs.Cond != nil || fs.Post != nil || len(fs.Body.List) != 1 {
+		return nil, "event loop: the body is not `for { select { … } }`"
+	}
+	sel, ok := fs.Body.List[0].(*ast.SelectStmt)
+	if !ok {
+		return nil, "event loop: the body is not `for { select { … } }`"
+	}
+	out := []evClause{}
+	for _, cs := range sel.Body.List {
+		cc := cs.(*ast.CommClause)
+		var recv ast.Expr
+		switch c := cc.Comm.(type) {
+		case *ast.AssignStmt:
+			if len(c.Lhs) == 1 && len(c.Rhs) == 1 && c.Tok == token.DEFINE {
+				recv = c.Rhs[0]
+			}
+		case *ast.ExprStmt:
+			recv = c.X
+		}
+		ue, ok := recv.(*ast.UnaryExpr)
+		if !ok || ue.Op != token.ARROW {
+			return nil, "event loop: a case that is not a receive"
+		}
+		se, ok := ue.X.(*ast.SelectorExpr)
+		if !ok {
+			return nil, "event loop: receive from something other than a field of the receiver"
+		}
+		out = append(out, evClause{se.Sel.Name, cc})
+	}
+	return out, ""
+}
+
+func (t *tr) bodyNode(q string) ast.Node {
+	if cl, ok := t.evClauses[q]; ok {
+		return &ast.BlockStmt{List: cl.Body}
+	}
+	return t.funcs[q].Body
+}
+
 func (t *tr) function(q string, fd *ast.FuncDecl, failed map[string]bool) (code string, errMsg string) {
 	defer func() {
 		if r := recover(); r != nil {
@@ -1905,6 +2171,7 @@ func (t *tr) function(q string, fd *ast.FuncDecl, failed map[string]bool) (code 
 	t.curFn = q
 	t.hasFx = false
 	t.nonNil = map[string]int{}
+	t.present = map[string]int{}
 	t.holding = false
 	t.recvObj = nil
 	sig := t.info.Defs[fd.Name].Type().(*types.Signature)
@@ -1957,6 +2224,15 @@ func (t *tr) function(q string, fd *ast.FuncDecl, failed map[string]bool) (code 
 		}
 		params = append(params, "("+t.nameOf(p)+" : "+t.leanType(p.Type())+")")
 	}
+	if cl, ok := t.evClauses[q]; ok {
+		bodyList = cl.Body
+		if as, ok := cl.Comm.(*ast.AssignStmt); ok {
+			if id, ok := as.Lhs[0].(*ast.Ident); ok && id.Name != "_" {
+				o := t.info.Defs[id]
+				params = append(params, "("+t.nameOf(o)+" : "+t.leanType(o.Type())+")")
+			}
+		}
+	}
 	if sig.Variadic() {
 		unsup("variadic function")
 	}
@@ -1975,6 +2251,11 @@ func (t *tr) function(q string, fd *ast.FuncDecl, failed map[string]bool) (code 
 	}
 	if t.sends[q] {
 		rts = append(rts, "(List String)")
+	}
+	outTy := ""
+	if ty := t.outs[q]; ty != nil {
+		outTy = "(List (Go.Chan × " + t.leanType(ty) + "))"
+		rts = append(rts, outTy)
 	}
 	rt := "Unit"
 	if len(rts) > 0 {
@@ -1996,6 +2277,9 @@ func (t *tr) function(q string, fd *ast.FuncDecl, failed map[string]bool) (code 
 	}
 	if t.sends[q] {
 		head += "  let snd__ : List String := []\n"
+	}
+	if outTy != "" {
+		head += "  let out__ : " + outTy + " := []\n"
 	}
 	return head + body, ""
 }
@@ -2156,10 +2440,25 @@ func translateAll(repo, outDir string) {
 		os.Exit(1)
 	}
 	total := 0
-	for _, sp := range trSpecs {
-		n, notes := translatePackage(repo, sp, outDir)
-		total += n
-		for _, x := range notes {
+	// one goroutine per package (each has its own file set, importer and type information)
+	type result struct {
+		n     int
+		notes []string
+	}
+	results := make([]result, len(trSpecs))
+	var wg sync.WaitGroup
+	for i, sp := range trSpecs {
+		wg.Add(1)
+		go func(i int, sp trSpec) {
+			defer wg.Done()
+			n, notes := translatePackage(repo, sp, outDir)
+			results[i] = result{n, notes}
+		}(i, sp)
+	}
+	wg.Wait()
+	for i, sp := range trSpecs {
+		total += results[i].n
+		for _, x := range results[i].notes {
 			fmt.Fprintln(os.Stderr, sp.dir+": "+x)
 		}
 	}
